@@ -32,8 +32,10 @@ def run(tier, rng, C):
     n = 3000 if tier == 'quick' else 90000
     cases = []
     for i in range(n):
-        r = i % 3
-        if r == 0:
+        r = i % 4
+        if r == 3:
+            layers = V.deep_ref_layers(rng)
+        elif r == 0:
             layers = V.ref_stack(rng, rng.randint(1, 4), rng.randint(1, 3), markers=0.15, p=0.3)
         elif r == 1:
             layers, _ = V.ranked_root(rng)
